@@ -176,6 +176,34 @@ DESC = {
               "ifft / coset_ifft of an input shorter than the domain whose entries are all equal and non-zero (every length-1 input)"),
     "C19-7": ("index-based rewrite of batch_inversion peels slot 0 off without the zero check",
               "a slice whose first entry is zero"),
+    "C01-9": ("ProverKey::from_slice accepts a serialized polynomial only if it is empty or has exactly n coefficients",
+              "the serialized-bytes route and a selector column whose leading coefficient vanishes (the same gadget half a domain apart; a full 2^k-row circuit of arithmetic rows)"),
+    "C04-9": ("q_m..q_c coefficients are compiled into the keys only on rows that have q_arith, q_logic or q_fixed_group_add set",
+              "a row added through append_custom_gate (q_arith = 0) with non-zero coefficients and a near miss in one of them: two descriptions, one verifier key"),
+    "C05-7": ("Composer::prove rejects a witness table longer than 4 x constraints + 2",
+              "an instance that allocates many witnesses it never wires"),
+    "C05-8": ("wire blinders pushed at the end of Evaluations::interpolate()'s trimmed coefficient vector",
+              "a padded wire column whose interpolation has degree below n - 1 (sum w_i omega^i = 0): a satisfied instance is rejected"),
+    "C07-6": ("component_truncate reuses the input witness as the low part when the value already fits in N bits",
+              "a description compiled from a fitting value (the all-zero default) and an instance whose value does not fit"),
+    "C07-7": ("append_logic_and takes a truncation fast path when the second operand equals the all-ones mask of the gadget's width",
+              "a witness equal to 2^(2 BIT_PAIRS) - 1"),
+    "C15-7": ("the compressor reuses the previous row's selector tuple when ten of the eleven selectors match (q_f is not compared)",
+              "two adjacent rows that agree in every selector except q_f"),
+    "C15-8": ("the decompressor sizes its witness map from the witness count declared in the description",
+              "a crafted description whose declared witness count is huge (capacity overflow / allocation not bounded by the parameters)"),
+    "C16-9": ("CommitKey::from_slice decodes keys of >= 512 points through par_bridge(), which does not keep order",
+              "parameters with >= 512 points, the std build and a pool with more than one worker"),
+    "C16-10": ("Verifier::try_from_bytes cross-checks size against 1 << (BITS - constraints.leading_zeros()), which doubles at exact powers of two",
+              "a circuit with exactly 2^k constraints and a verifier round trip"),
+    "C17-8": ("Evaluations::from_slice allocates Vec::with_capacity(domain_size) from the serialized domain header before comparing with the remaining bytes",
+              "a prover key with a canonical large domain header and little or no evaluation data (only the allocation differs, never the result)"),
+    "C17-9": ("opening-key G2 elements decompressed unchecked and subgroup-checked only as a sum h + x_h",
+              "both G2 slots shifted by opposite components outside the subgroup"),
+    "C18-9": ("Hades tables de-duplicated into a HashSet and numbered by iterating it, cached in a OnceLock",
+              "compress / compile_with_compressed of a circuit with Hades constants as selectors, compared across processes (or with the alloc-only build)"),
+    "C18-10": ("domain elements filled block-wise per worker, block start computed by squaring trailing_zeros(block_len) times",
+              "a pool size that is not a power of two and a circuit of >= 2^10 rows"),
 }
 
 
